@@ -276,7 +276,12 @@ class VNCLoggingClientProxy(portforward.ProxyClient):  # type: ignore[misc]
     def dataReceived(self, data: bytes) -> None:
         super().dataReceived(data)
         if self.vnclog:
-            self.vnclog.dataReceived(data)
+            try:
+                self.vnclog.dataReceived(data)
+            except Exception:
+                # never let the decoder used for logging end the proxied session
+                log.exception("cannot decode server data, stopped decoding")
+                self.vnclog = None
 
 
 class VNCLoggingClientFactory(portforward.ProxyClientFactory):  # type: ignore[misc]
@@ -297,6 +302,7 @@ class VNCLoggingServerProxy(portforward.ProxyServer, RFBServer):  # type: ignore
     server: str | None = None
     buttons = 0
     recorder: Callable[[str], int] | None = None
+    recording = True
 
     def connectionMade(self) -> None:
         log.info("new connection from %s", self.transport.getPeer().host)
@@ -311,7 +317,13 @@ class VNCLoggingServerProxy(portforward.ProxyServer, RFBServer):  # type: ignore
         self.factory.clientConnectionLost(self)
 
     def dataReceived(self, data: bytes) -> None:
-        RFBServer.dataReceived(self, data)
+        if self.recording:
+            try:
+                RFBServer.dataReceived(self, data)
+            except Exception:
+                # never let the recorder end the proxied session
+                log.exception("cannot decode client data, stopped recording")
+                self.recording = False
         super().dataReceived(data)
 
     def _handle_clientInit(self) -> None:
